@@ -188,14 +188,20 @@ func childC12(args []string) {
 		var ierr error
 		select {
 		case ierr = <-done:
-		case <-time.After(90 * time.Second):
-			stuck, why := classifyStacks(vlib.AllStacks(), "namedpipe.(*NamedPipeIngester).Ingest")
-			if stuck {
-				out.violation("C12:ingest-stuck", fmt.Sprintf("Ingest did not return after the writer finished (%s)", why), map[string]any{"index": i})
-			} else {
-				out.inconclusive("C12: Ingest still running after 90 s: " + why)
+		case <-wdone:
+			// the writer has written everything and closed its end: end-of-stream
+			// (or the injected callback error) is all that is left for Ingest
+			select {
+			case ierr = <-done:
+			case <-time.After(30 * time.Second):
+				stuck, why := classifyStacks(vlib.AllStacks(), "namedpipe.(*NamedPipeIngester).Ingest")
+				if stuck {
+					out.violation("C12:ingest-stuck-at-end-of-stream", fmt.Sprintf("Ingest did not return after the writer wrote %d records and closed the pipe (%s)", len(s.Records), why), map[string]any{"index": i})
+				} else {
+					out.inconclusive("C12: Ingest still running 30 s after the writer closed the pipe: " + why)
+				}
+				return // the ingester goroutine is lost; the rest of the batch would only repeat this
 			}
-			continue
 		}
 		returned = true
 		<-wdone
